@@ -30,7 +30,7 @@ pub fn c13(ctx: &Ctx, subj: &dyn DynSubject, ty: &Ty, rep: &mut Report) {
         let mut ent = Ent::new(ent);
         self_check(subj, v)?;
         let (bytes, _) = ser_bytes(subj, v)?;
-        let enc = model_enc(ctx, subj, ty, v)?;
+        let enc = model_enc_fit(ctx, subj, ty, v, bytes.len(), log)?;
         let len = bytes.len();
         log.sample = Some(sample_json(subj, v, Some(&bytes), json!({"schedules": "fail@k, Ok(0)@k, flush failure, split, interrupted; plain and BufWriter sinks"})));
         let run = |sched: WriteSchedule, buffered: Option<usize>| -> Result<(Result<usize, String>, Vec<u8>, crate::SrcReport), Fail> {
@@ -102,6 +102,34 @@ pub fn c13(ctx: &Ctx, subj: &dyn DynSubject, ty: &Ty, rep: &mut Report) {
             }
             check_src(&src, &what)?;
         }
+        // the other serialization entry points must report a failing flush / write as well
+        for entry in ["serialize_with_schema", "serialize_on_field_write"] {
+            let mut scheds = vec![WriteSchedule::FlushFails];
+            if len > 30 {
+                scheds.push(WriteSchedule::FailAt { k: 29 + ent.pick(len - 29), kind: io::ErrorKind::Other });
+            }
+            for sched in scheds {
+                for buffered in [false, true] {
+                    let mut fw = FaultyWriter::new(sched.clone(), len + 64);
+                    let what = format!("{} with {:?} (buffered: {})", entry, sched, buffered);
+                    log.extra_evals += 1;
+                    let r = if buffered {
+                        let mut bw = BufWriter::with_capacity(4096, &mut fw);
+                        let r = guard(|| if entry == "serialize_with_schema" { subj.ser_schema(v, &mut bw).map(|_| ()) } else { subj.ser_traced(v, &mut bw).0 });
+                        let _ = guard(|| drop(bw));
+                        r
+                    } else {
+                        guard(|| if entry == "serialize_with_schema" { subj.ser_schema(v, &mut fw).map(|_| ()) } else { subj.ser_traced(v, &mut fw).0 })
+                    };
+                    match r {
+                        Ok(Err(epserde::ser::Error::WriteError)) => {}
+                        Ok(Err(e)) => return Err(Fail::new("write-fault-wrong-error", format!("{}: returned {:?} instead of WriteError", what, e)).env(json!({"schedule": what}))),
+                        Ok(Ok(())) => return Err(Fail::new("write-fault-success", format!("{}: reported success although the writer failed", what)).env(json!({"schedule": what}))),
+                        Err(p) => return Err(Fail::new(&format!("write-fault-panic:{}", panic_class(&p)), format!("{}: panicked: {}", what, p)).env(json!({"schedule": what}))),
+                    }
+                }
+            }
+        }
         // benign schedules: split and interrupted writes must deliver exactly the stream
         let rnd: Vec<usize> = (0..8).map(|_| 1 + ent.pick(13)).collect();
         let benign = vec![
@@ -148,7 +176,7 @@ pub fn c14(ctx: &Ctx, subj: &dyn DynSubject, ty: &Ty, rep: &mut Report) {
         self_check(subj, v)?;
         let s = classify(ctx, ty, v, log);
         let (bytes, _) = ser_bytes(subj, v)?;
-        let enc = model_enc(ctx, subj, ty, v)?;
+        let enc = model_enc_fit(ctx, subj, ty, v, bytes.len(), log)?;
         let len = bytes.len();
         log.sample = Some(sample_json(subj, v, Some(&bytes), json!({"schedules": "chunked 1 / primes / random, interrupted, fail@k for every k"})));
         let rnd: Vec<usize> = (0..8).map(|_| 1 + ent.pick(17)).collect();
